@@ -164,6 +164,24 @@ Proof.
     repeat (destruct H as [H|H]; [inversion H; subst; intros [H1 _]; discriminate|]). destruct H.
 Qed.
 
+(* ... and it HOLDS for every read outside that class: the returned vector and the returned metadata are
+   each canonical at a step of the call's interval (kv, km), and when no write of that id took effect
+   between those two steps they belong to one canonical record.  (The refuted class is exactly "a write
+   of the same id lands between the metadata fetch and the vector's linearisation point".) *)
+Theorem C05_pairing_without_interleaved_write :
+  forall (digest : vec -> dgst), (forall a b : vec, digest a = digest b -> a = b) ->
+  forall sh0 threads sched g,
+    crun digest (ginit sh0 threads) sched = Some g ->
+    forall t c cl r inv res id v m,
+      In (HRes t c cl r inv res) (g_hist g) -> In (id, (v, m)) (pair_components r) ->
+      exists kv km xv xm,
+        In (kv, LObs id xv) (chron (g_log g)) /\ In (km, LObs id xm) (chron (g_log g)) /\
+        inv <= kv <= res /\ inv <= km <= res /\
+        option_map c_vec xv = Some v /\ option_map c_meta xm = Some m /\
+        ((forall kw xw, In (kw, LW id xw) (chron (g_log g)) -> ~ (Nat.min kv km <= kw <= Nat.max kv km)) ->
+         exists rc, xv = Some rc /\ xm = Some rc /\ c_vec rc = v /\ c_meta rc = m).
+Proof. exact pairing_without_interleaved_write. Qed.
+
 (* Observation (not part of the read clauses): an insert can answer Err AFTER its cold-tier write took
    effect — a delete of the same id lands between the insert's cold.insert and its token read
    ("insert succeeded but cold tier has no canonical token").  The theorems above linearise such an
@@ -208,5 +226,6 @@ Print Assumptions C05_linearisation_subsequence.
 Print Assumptions C05_read_value_written.
 Print Assumptions C05_read_sees_completed_write.
 Print Assumptions C05_pairing_refuted.
+Print Assumptions C05_pairing_without_interleaved_write.
 Print Assumptions C05_pairing_refuted_bulk.
 Print Assumptions C05_insert_err_after_effect_witness.
